@@ -249,8 +249,8 @@ CHECKS = {
              "states and thrusts: Hill's ODE with constant thrust, identity at t=0, composition/inverse, TNW = fixed permutation "
              "of QSW, one impulsive/continuous maneuver applied exactly once / only inside its window, and that each helper "
              "maneuver ends exactly where announced and at rest; propagating the orbit returned by propagate(t1) further to "
-             "t2 >= t1 equals propagate(t2) through an impulsive or a continuous maneuver (maneuvers dated at or before an "
-             "orbit's epoch belong to its past). Going back across a maneuver is a recorded open finding. Bounded: <=1 "
+             "t2 >= t1 equals propagate(t2) through an impulsive or a continuous maneuver (maneuvers dated before an orbit's "
+             "epoch belong to its past; an impulse takes effect just after its date). Going back across a maneuver is a recorded open finding. Bounded: <=1 "
              "maneuver via the generic path (helper sequences of up to 3), real arithmetic instead of binary64.",
         note="Trusted: z3; numpy object-dtype kernels; the textbook CW closed form and Hill's equations written in the harness; "
              "Date/timedelta replaced by exact real-second stubs. Outside: second-order agreement with Keplerian difference.",
